@@ -200,13 +200,13 @@ package routine
 //
 // The retry timer callback (started by execute's critical section through time.AfterFunc).
 //@ func (*runningRoutine).execute$1$1
-//@   props C04 C14 C13
+//@   props C04 C05 C14 C13
 //@   opt frame = skip
 //@   requires r != nil && r.r != nil
 //@   assume timerset: timer != nil
 //
 //@ closure (*runningRoutine).execute$1$1$1
-//@   props C04 C14
+//@   props C04 C05 C14
 //@   assert exit: nosuccessrerun: csold(r.success) ==> r.r.lastCh == csold(r.r.lastCh)
 //
 // StateRoutineContainer: its fields s and stateRoutine are guarded by the lock of its RoutineContainer
